@@ -1553,7 +1553,8 @@ void BSDynamicTriShape::notifyVerticesDelete(const std::vector<uint16_t>& vertIn
 	BSTriShape::notifyVerticesDelete(vertIndices);
 
 	EraseVectorIndices(dynamicData, vertIndices);
-	dynamicDataSize = static_cast<uint32_t>(dynamicData.size());
+	// Size in bytes (16 per vertex), as in CalcDynamicData
+	dynamicDataSize = static_cast<uint32_t>(dynamicData.size()) * 16;
 }
 
 void BSDynamicTriShape::CalcDynamicData() {
